@@ -1100,3 +1100,43 @@ pub fn wal_numbers(options: &DbOptions) -> Vec<u64> {
     out.sort();
     out
 }
+
+/// `VersionSet::pick_compaction` on a version set whose current version holds `levels`, with the compaction trigger forced:
+/// `seek_file` = Some((level, index)) marks that file as the seek-compaction candidate (no size trigger),
+/// `size_level` = Some(level) forces a size-triggered compaction of that level. Returns the numbers of the level-L inputs
+/// (after `finalize_compaction_inputs`) and of the level-L+1 inputs.
+pub fn pick_compaction_scenario(
+    options: DbOptions,
+    levels: &[(usize, Vec<VFile>)],
+    seek_file: Option<(usize, usize)>,
+    size_level: Option<usize>,
+    pointer: Option<(usize, (Vec<u8>, u64))>,
+) -> Option<(usize, Vec<u64>, Vec<u64>)> {
+    let (guarded, _tc) = vset_with(&options, levels);
+    let mut g = guarded.lock();
+    {
+        let cur = g.version_set.get_current_version();
+        let mut node = cur.write();
+        match seek_file {
+            Some((level, idx)) => {
+                let f = Arc::clone(&node.element.files[level][idx]);
+                node.element.set_seek_compaction_metadata(crate::versioning::version::SeekCompactionMetadata {
+                    file_to_compact: Some(f),
+                    level_of_file_to_compact: level,
+                });
+                node.element.set_size_compaction_metadata(None);
+            }
+            None => {}
+        }
+        if let Some(level) = size_level {
+            node.element
+                .set_size_compaction_metadata(Some(crate::versioning::version::SizeCompactionMetadata { compaction_level: level, compaction_score: 2.0 }));
+        }
+    }
+    if let Some((level, (k, s))) = pointer {
+        g.version_set.set_compaction_pointer_for_verif(level, InternalKey::new(k, s, Operation::Put));
+    }
+    let cm = g.version_set.pick_compaction()?;
+    let nums = |fs: &[Arc<FileMetadata>]| fs.iter().map(|f| f.file_number()).collect::<Vec<u64>>();
+    Some((cm.level(), nums(cm.get_compaction_level_files()), nums(cm.get_parent_level_files())))
+}
